@@ -82,8 +82,12 @@ func iccSequences(r *ev.Run, depth int, keyPrefix string, header, desc bool) {
 		arg  int // profile index or handle index
 	}
 	var seqs int64
+	hung := false // a call that did not return: every further sequence would wait for the time limit again
 	var rec func(seq []op, nHandles int)
 	run := func(seq []op) {
+		if hung {
+			return
+		}
 		seqs++
 		var handles []*icc.Profile
 		var owner []int
@@ -95,6 +99,9 @@ func iccSequences(r *ev.Run, depth int, keyPrefix string, header, desc bool) {
 				var got *icc.Profile
 				var err error
 				ok, pn := withTimeout(60*time.Second, func() { got, err = icc.NewProfileReader(bytes.NewReader(p.data)).ReadProfile() })
+				if !ok {
+					hung = true
+				}
 				if !ok || pn != nil {
 					r.Violate(keyPrefix+"/read-hang-or-panic", fmt.Sprintf("ReadProfile did not return normally (returned=%v panic=%v) in the sequence %v", ok, pn, trace), map[string]interface{}{"sequence": trace}, nil)
 					return
@@ -120,6 +127,7 @@ func iccSequences(r *ev.Run, depth int, keyPrefix string, header, desc bool) {
 				var err error
 				ok, pn := withTimeout(60*time.Second, func() { d, err = h.Description() })
 				if !ok {
+					hung = true
 					r.Violate(keyPrefix+"/description-hang", fmt.Sprintf("Description() did not return within 60 s in the sequence %v", trace), map[string]interface{}{"sequence": trace}, nil)
 					return
 				}
@@ -152,7 +160,7 @@ func iccSequences(r *ev.Run, depth int, keyPrefix string, header, desc bool) {
 		if len(seq) > 0 {
 			run(seq)
 		}
-		if len(seq) == depth || r.NViolations() > 25 {
+		if len(seq) == depth || r.NViolations() > 25 || hung {
 			return
 		}
 		for i := range profs {
